@@ -433,9 +433,8 @@ Proof.
   destruct (Hchar (s_index hs (p ++ x :: q))) as [Hc1 Hc2].
   destruct (Z.odd x) eqn:Ox.
   - (* written in this round *)
-    destruct (Zodd_ex_iff x) as [Hex _]. 
     assert (Hi : exists i, x = 2 * i + 1) by (apply Z.odd_spec in Ox; destruct Ox as [i Ei]; exists i; exact Ei).
-    clear Hex. destruct Hi as [i Ei].
+    destruct Hi as [i Ei].
     rewrite Hc1.
     2:{ apply tg_char; [exact H|]. exists p, q, i. split; [exact Hp|]. split; [exact Hq|]. split; [lia|]. subst x. reflexivity. }
     replace (s_index hs (p ++ x :: q) - T) with (s_index hs (p ++ (x - 1) :: q))
